@@ -139,7 +139,8 @@ def run():
     cap = 6000 if tier() == "quick" else 80000
     if len(uniq) > cap:
         uniq = ses.rnd.sample(uniq, cap)
-    texts = sorted({t for f in uniq for t in [f[1]] + f[2]})
+    ANY_BASE = ["", "a", "b", "*", "**", "a/**", "{a,b}", "/a", "<a:0,1>"]
+    texts = sorted({t for f in uniq for t in [f[1]] + f[2]} | set(ANY_BASE))
     rows = dict(zip(texts, probe([{"op": "glob", "e": t} for t in texts])))
 
     def ok(t):
@@ -162,6 +163,15 @@ def run():
         n = ses.rnd.choice([1, 2, 2, 3])
         tuples.append(([ses.rnd.choice(built) for _ in range(n)],
                        ses.rnd.choice(["text", "glob", "owned", "nested", "nested_glob"])))
+    # the empty pattern (matches exactly the empty path) next to other patterns, in every position
+    # and mode; sibling nested combinators with several patterns each
+    modes = ["text", "glob", "owned", "nested", "nested_glob", "nested_pairs"]
+    for x in ANY_BASE[1:]:
+        for m in modes:
+            tuples += [(["", x], m), ([x, ""], m), (["", "", x], m), ([x, "", "b"], m)]
+    for _ in range(100 if tier() == "quick" else 2000):
+        tuples.append(([ses.rnd.choice(built) for _ in range(ses.rnd.choice([3, 4, 5]))], "nested_pairs"))
+    tuples = [(p, m) for p, m in tuples if all(ok(t) for t in p)]
     anyrows = probe([{"op": "any", "pats": p, "mode": m} for p, m in tuples])
     anylive = {}
     for k, ((pats, mode), row) in enumerate(zip(tuples, anyrows)):
